@@ -52,6 +52,9 @@ type Reply struct {
 	// capability matrix (servercaps.go)
 	ParamCols    []ColDef // COM_STMT_PREPARE of a scripted statement: parameter definitions (default: anonymous "?" definitions)
 	SessionState []byte   // OK packets under CLIENT_SESSION_TRACK: session state information (sets SERVER_SESSION_STATE_CHANGED)
+	// ErrAtPrepare: a scripted statement whose Err is set is refused already at COM_STMT_PREPARE (where a real server reports
+	// syntax errors) instead of at execution.
+	ErrAtPrepare bool
 }
 
 // Script produces the canned answer of a statement; binary tells whether the binary protocol (COM_STMT_EXECUTE) is used.
@@ -69,6 +72,9 @@ type Server struct {
 	OnResult func(sql string, res *fakepg.Result)
 	// Hand, when set, replaces the fixed MySQL-flavour greeting (capability matrix, servercaps.go); Caps is then Hand.WireCaps().
 	Hand *Greeting
+	// Fallback, when set, answers every COM_QUERY / COM_STMT_PREPARE text that has no exact SetScript entry (a nil reply
+	// falls through to evaluation): fully scripted databases for layers that do not care what a statement means.
+	Fallback Script
 
 	ln          net.Listener
 	mu          sync.Mutex
@@ -671,6 +677,9 @@ func (s *Server) serve(id int, nc net.Conn) {
 			s.mu.Lock()
 			sc := s.scripts[sql]
 			s.mu.Unlock()
+			if sc == nil {
+				sc = s.fallbackFor(sql, false)
+			}
 			if sc != nil {
 				s.record(rec)
 				c.sendReply(sc(sql, false), false)
@@ -695,6 +704,9 @@ func (s *Server) serve(id int, nc net.Conn) {
 			s.mu.Lock()
 			sc := s.scripts[sql]
 			s.mu.Unlock()
+			if sc == nil {
+				sc = s.fallbackFor(sql, true)
+			}
 			nextID++
 			p := &prepared{id: nextID, sql: sql, long: map[int][]byte{}}
 			last.prepareBegins()
@@ -704,6 +716,10 @@ func (s *Server) serve(id int, nc net.Conn) {
 				p.script = sc
 				p.nParams = strings.Count(sql, "?")
 				rep := sc(sql, true)
+				if rep.Err != nil && rep.ErrAtPrepare {
+					c.sendErr(rep.Err.Code, rep.Err.State, rep.Err.Msg)
+					break
+				}
 				if rep.Err != nil && rep.Cols == nil {
 					// scripted statements that fail do so at execution
 				}
